@@ -123,7 +123,7 @@ func TestVerif_C03_Wrappers(t *testing.T) {
 		d, _, _ := sm2gen.PrivKey(t, "d")
 		px, py, _ := sm2gen.Pub(d)
 		id := gen.RandBytes(r0, gen.Int(t, "idlen", 0, 40))
-		msg := gen.RandBytes(r0, gen.Int(t, "msglen", 0, 150))
+		msg := gen.RandBytes(r0, gen.Len(t, "msglen", 9000))
 		id, idShape := gen.Absent(t, "id", id)
 		msg, _ = gen.Absent(t, "msg", msg)
 		rec.Tally("id-shape:" + idShape)
